@@ -57,6 +57,39 @@ CLAIMED.update({
     ),
 })
 
+CLAIMED.update({
+    "C01": (
+        "path rules on the SSA of the terminfo painter: edge-sensitive must-dataflow (cursor cache), dominance / must-pass-through (invalidate before draw, flush, epilogue), value provenance of colour arguments",
+        "Structural necessary conditions every history-independent painter must satisfy, decided on all paths of draw/drawCell/resize/Sync/mainLoop/showCursor/sendFgBg: payload only after addressing or both cache-equality tests; cached cursor and style forgotten at the start of each draw; every geometry change / Sync / resize notification invalidates all cells (Sync also clears) before drawing; clean-mark only after the payload write, cached column dropped after wide output; one buffered flush per draw; cursor epilogue with the four-sided test; palette indices from the colour cache / FindColor(palette), RGB under truecolor; hidden column of a wide rune re-dirtied. Grid equality over histories, attribute order and hyperlinks are not decided.",
+        "Trusted: go/ssa; rule templates in checker/c01.go. The meaning of the emitted strings is decided separately (C09, C14, C15).",
+    ),
+    "C08": (
+        "guard-dominance and field-pair agreement rules on the SSA of every CellBuffer method; who-may-write the shape fields; aliasing rule for combining slices",
+        "Structural necessary conditions on all paths of cell.go: bounded cells[] access with index y*w+x under the four-way guard, shape fields only replaced together in Resize; Dirty/SetDirty/Resize agree on every curr/last field pair of the struct; lock test first, unlock and Invalidate force-dirty; combining runes copied and never written through; ColorNone merge wherever the style is stored; wide-rune columns dirtied before the width changes; width always recomputed from the stored rune. Equivalence with an array model over histories is not decided.",
+        "Trusted: go/ssa; one named exception (SetDirty's zero-rune→blank rewrite), printed in the evidence.",
+    ),
+    "C09": (
+        "encapsulation / who-may-read rules, sanitiser path rule on GetContent, provenance classification of every emission site + reference-interpreter expansion + ECMA-48 tokenizer over all ECMA-family entries, sign discipline of TParm arguments",
+        "Injection half: cell content is reachable only through CellBuffer.GetContent, which on every path returns a blank, zero or a rune that passed width != 0 and rune >= ' '; width is always recomputed from the stored rune; payload reaches the Tty only via drawCell→encodeRune→writeString. Well-formedness half, exhaustive over emission sites x ECMA-family entries (3000+ constant strings): each emitted control string, expanded by the reference interpreter over sample parameters, tokenizes as complete CSI/OSC/ESC sequences with numeric parameters and no residue; integer TParm arguments are provably non-negative or named exceptions. External charset encoders and user strings (title, URL) are not decided.",
+        "Trusted: go-runewidth's classification of non-printing runes (EastAsianWidth off, whose store is checked), reference interpreter and tokenizer (self-tested), three named exceptions (SetSize arguments, corner-trick column) printed in the evidence.",
+    ),
+    "C11": (
+        "loop-bound and value-provenance rules on the rune decoder, block-level pairing rule on paste configuration, dispatch guards in the collect loop",
+        "Thin structural necessary conditions: inclusive prefix-loop bound in parseRune, consumption = decoder's nSrc, paste enable/disable strings and both bracket keys configured together and mapped to start/end events, rune and focus parsers called unconditionally, focus I/O polarity. Behaviour of the external charset decoders over all strings and split points is not decided.",
+        "Trusted: go/ssa. The sibling loop in SimulationScreen.InjectKeyBytes is decided under C18.",
+    ),
+    "C13": (
+        "guard dominance of every emission by the Dirty edge, enumeration of force-dirty sites reachable from Show through the call graph with an edge-sensitive 'size differs' must-fact, who-may-call the raw writer",
+        "Structural necessary conditions on all paths: every emission of both painters is dominated by the true edge of Dirty and the clean-mark is tied to the payload write; every force-dirty site reachable from Show is behind resize()'s size-changed test or is one of the two documented neighbour sites (any other site makes every Show repaint unchanged cells); payload is written only by drawCell; LockRegion dispatches on its flag. 'Exactly the changed set' over histories is not decided.",
+        "Trusted: go/ssa; the two documented neighbour sites are recognised by shape (x+1 under width>1; x-1 inside the corner-trick closure).",
+    ),
+    "C18": (
+        "sibling rules of C11/C13/C01 applied to simscreen: loop bound, nSrc provenance, reachability of a posted resize event from SetSize, dirty gate, Sync ordering",
+        "Thin structural necessary conditions for the test double: InjectKeyBytes' prefix loop includes len(b) and advances by nSrc; SetSize of each backend reaches a posted EventResize without pre-empting the size comparison; painter dirty-gated, clean after write, Sync clears and invalidates first, last-column wide rune blanked, four-sided cursor test. Fidelity over histories and byte-level agreement with the real fallback chain are not decided; the simulator's locking is decided under C10.",
+        "Trusted: go/ssa.",
+    ),
+})
+
 # id -> reason for properties not (yet) claimed
 NOT_APPLICABLE = {
 }
